@@ -18,7 +18,9 @@
 //
 // `reset ... lst=<P|M...>`: FilterSelfServices is the REAL node/app.App.FilterSelfServices of an App started on
 // a generated config dir whose node lists the hosted services (P) interleaved with unconfigured names (M).
-// `res i=<k> up=0|1`: INodeApp.GetService(s<k>) starts returning nil / the pid again.
+// GetService is the REAL node/app.App.GetService over the App's cluster directory, fed like a discovery
+// provider would: `res i=<k> up=0|1` drops / restores s<k> in the node's member record; `reflect` (or
+// `reset ... refl=auto`, at once) makes the directory show the node state published last.
 //
 // `reset ... stop=later|inline1|inline0`: the recording INodeApp completes StopNode through a later
 // `stopdone` op (or never), or inside the StopNode call with true / false.
@@ -107,20 +109,43 @@ type recApp struct {
 	r     *rec
 	real  *app.App
 	cfg   *app.App        // a started real App whose node lists the services (with gaps): the real FilterSelfServices
-	down  map[string]bool // services GetService cannot resolve right now
+	down  map[string]bool // services missing from the node's member record right now
+	// the node state the directory shows for this node: like etcd, the provider's own publication comes
+	// back through the topology - at once (autoReflect) or when the op `reflect` says so
+	reflected   int
+	lastPub     int
+	autoReflect bool
 	// how StopNode completes: "later" (op stopdone), "inline1" / "inline0": the callback runs inside
 	// StopNode, before it returns, with true / false (what baseapp does when every module stops synchronously)
 	stopMode string
 }
 
 func (a *recApp) GetActorSystem() *actor.ActorSystem { return a.sys }
-func (a *recApp) GetService(name string) *actor.PID {
+
+// GetService is the REAL node/app.App.GetService: a lookup in the App's cluster directory, which the
+// harness feeds the way a discovery provider does (publishTopology): the node's own member record with
+// the services that are currently resolvable and the node state the directory currently shows.
+func (a *recApp) GetService(name string) *actor.PID { return a.cfg.GetService(name) }
+
+// publishTopology pushes the node's member record into the real directory.
+func (a *recApp) publishTopology() {
 	a.r.mu.Lock()
-	defer a.r.mu.Unlock()
-	if a.down[name] {
-		return nil
+	state := a.reflected
+	var keep []string
+	members := a.cfg.GetCluster().BuildSelfClusterTopology()
+	for _, m := range members {
+		keep = keep[:0]
+		for _, full := range m.Services {
+			_, name := app.SplitServiceName(full)
+			if !a.down[name] {
+				keep = append(keep, full)
+			}
+		}
+		m.Services = append([]string{}, keep...)
+		m.State = state
 	}
-	return a.pids[name]
+	a.r.mu.Unlock()
+	a.cfg.GetCluster().UpdateClusterTopology(members)
 }
 
 // FilterSelfServices is the REAL node/app.App.FilterSelfServices of a node whose service list names
@@ -170,7 +195,7 @@ func cfgApp(pattern string) *app.App {
 			nm++
 		}
 	}
-	nodes := "---\nnodes:\n  n1:\n    StartMode: " + launchMode + "\n    Address: 127.0.0.1:39512\n    Services: [" + strings.Join(names, ", ") + "]\nservices:\n" + strings.Join(entries, "")
+	nodes := "---\nnodes:\n  n1:\n    StartMode: " + launchMode + "\n    Address: " + cfgAddress + "\n    Services: [" + strings.Join(names, ", ") + "]\nservices:\n" + strings.Join(entries, "")
 	if len(entries) == 0 {
 		nodes += "  unused:\n    Type: c12svc\n"
 	}
@@ -205,6 +230,7 @@ func (a *recApp) UpdateNodeState(state int) {
 // (virtual) time - registry IO - and the state counts as published when the call completes.
 type provStub struct {
 	r      *rec
+	app    *recApp
 	delays []time.Duration
 	n      int
 }
@@ -224,7 +250,18 @@ func (p *provStub) UpdateClusterState(state int) error {
 	p.r.mu.Lock()
 	p.r.pubs = append(p.r.pubs, state)
 	p.r.inFlight--
+	auto := false
+	if p.app != nil {
+		p.app.lastPub = state
+		if p.app.autoReflect {
+			p.app.reflected = state
+			auto = true
+		}
+	}
 	p.r.mu.Unlock()
+	if auto {
+		p.app.publishTopology()
+	}
 	return nil
 }
 func (a *recApp) StopNode(fin func(succ bool)) {
@@ -377,9 +414,28 @@ func system() *actor.ActorSystem {
 		theSys = actor.NewActorSystemWithConfig(actor.Configure(actor.WithLoggerFactory(func(*actor.ActorSystem) *slog.Logger {
 			return slog.New(slog.NewTextHandler(io.Discard, nil))
 		})))
+		// the cluster directory hands out PIDs "host:port/<service name>": resolve them to the current
+		// case's actors (no remote layer in a bubble)
+		theSys.ProcessRegistry.RegisterAddressResolver(func(pid *actor.PID) (actor.Process, bool) {
+			w := resolving
+			if pid.Address != cfgAddress || w == nil {
+				return nil, false
+			}
+			for _, s := range w.svcs {
+				if s.name == pid.Id && s.pid != nil {
+					return theSys.ProcessRegistry.GetLocal(s.pid.Id)
+				}
+			}
+			return nil, false
+		})
 	}
 	return theSys
 }
+
+const cfgAddress = "127.0.0.1:39512"
+
+// the world whose actors the directory PIDs resolve to (set while a case is being built, too)
+var resolving *world
 
 var cur *world
 
@@ -415,7 +471,7 @@ func (w *world) spawnRaw(name string) (*rawSvc, *actor.PID) {
 	return s, pid
 }
 
-func newWorld(kinds []string, stopMode string, delays []time.Duration, pattern string) *world {
+func newWorld(kinds []string, stopMode string, delays []time.Duration, pattern string, autoReflect bool) *world {
 	if cur != nil {
 		cur.teardown()
 	}
@@ -424,13 +480,16 @@ func newWorld(kinds []string, stopMode string, delays []time.Duration, pattern s
 	// the real stateutils.NotifyServiceRetired reaches the controller through the global app.Node
 	app.Node = app.NewNode()
 	w.ctrl = app.Node.GetNodeCtrl()
-	app.Node.SetProvider(&provStub{r: w.r, delays: delays})
+	prov := &provStub{r: w.r, delays: delays}
+	app.Node.SetProvider(prov)
+	resolving = w
 	np := strings.Count(pattern, "P")
 	if np != len(kinds) || strings.Trim(pattern, "PM") != "" {
 		pattern = strings.Repeat("P", len(kinds))
 	}
 	w.app = &recApp{sys: w.sys, pids: map[string]*actor.PID{}, r: w.r, stopMode: stopMode, real: app.Node,
-		cfg: cfgApp(pattern), down: map[string]bool{}}
+		cfg: cfgApp(pattern), down: map[string]bool{}, reflected: 1, lastPub: 1, autoReflect: autoReflect}
+	prov.app = w.app
 	for i, k := range kinds {
 		s := &svc{name: fmt.Sprintf("s%d", i), kind: k}
 		switch k {
@@ -471,6 +530,7 @@ func newWorld(kinds []string, stopMode string, delays []time.Duration, pattern s
 	w.master, w.mpid = w.spawnRaw("master")
 	w.ghost, w.gpid = w.spawnRaw("ghost")
 	synctest.Wait()
+	w.app.publishTopology()
 	w.ctrl.Start(w.app)
 	w.all = append(w.all, w.ctrl.GetAdmin())
 	// the retire-support probe fires 3 s after Start
@@ -576,7 +636,8 @@ func exec(op string) string {
 			}
 		}
 		lst, _ := hx.KV(ws, "lst")
-		w := newWorld(kinds, sm, delays, lst)
+		refl, _ := hx.KV(ws, "refl")
+		w := newWorld(kinds, sm, delays, lst, refl == "auto")
 		return w.obs(func(string, bool) string { return "-" })
 	}
 	w := cur
@@ -657,7 +718,16 @@ func exec(op string) string {
 			w.r.mu.Lock()
 			w.app.down[s.name] = hx.KVInt(ws, "up") != 1
 			w.r.mu.Unlock()
+			w.app.publishTopology()
 		}
+		settle()
+		return w.obs(func(string, bool) string { return "-" })
+	case "reflect":
+		// the discovery provider's watch fires: the directory now shows the node state published last
+		w.r.mu.Lock()
+		w.app.reflected = w.app.lastPub
+		w.r.mu.Unlock()
+		w.app.publishTopology()
 		settle()
 		return w.obs(func(string, bool) string { return "-" })
 	case "tick":
@@ -701,6 +771,11 @@ func (g *gen) reset() (string, []string) {
 	mode := []string{"later", "later", "inline1", "inline1", "inline0"}[h.R.Intn(5)]
 	h.Count("reset.stop-" + mode)
 	op := "reset k=" + strings.Join(ks, ",") + " stop=" + mode
+	// the directory shows the node's own published state at once (as a fast etcd watch would)
+	if h.R.Intn(4) == 0 {
+		h.Count("reset.reflect-auto")
+		op += " refl=auto"
+	}
 	// the node's service list as the real App reads it: unconfigured names first / in the middle / last
 	if h.R.Intn(3) == 0 {
 		pat := []byte(strings.Repeat("P", n))
@@ -779,6 +854,8 @@ func (g *gen) op(n int) string {
 		return "tick"
 	case 1:
 		return fmt.Sprintf("res i=%s up=%d", g.idx(n), h.R.Intn(2))
+	case 2:
+		return "reflect"
 	}
 	return "cmd retire"
 }
@@ -814,6 +891,11 @@ func (g *gen) guided(kinds []string) []string {
 	}
 	if !skip() {
 		ops = append(ops, "cmd "+[]string{"retire", "retire", "web_retire"}[h.R.Intn(3)])
+	}
+	// the master repeats retire once the directory shows the node as retiring, services not yet reported
+	if h.R.Intn(3) == 0 {
+		h.Count("guided.retire-again-after-reflection")
+		ops = append(ops, "reflect", "cmd "+[]string{"retire", "web_retire"}[h.R.Intn(2)])
 	}
 	if down >= 0 && h.R.Intn(2) == 0 {
 		ops = append(ops, fmt.Sprintf("res i=%d up=1", down), "cmd "+[]string{"retire", "web_retire"}[h.R.Intn(2)])
@@ -948,6 +1030,8 @@ func TestExhaustive(t *testing.T) {
 		resLetters := append(append([]string{}, core[:6]...), "res i=0 up=0", "res i=0 up=1", "res i=1 up=0", "cmd web_retire")
 		enum("raw-raw-resolve", "reset k=raw,raw lst=PMP", resLetters, hx.EnvInt("VERIF_EXH_LEN3", 5))
 		enum("nok-nem", "reset k=nok,nem lst=MPP", full, 3)
+		enum("raw-raw-reflect", "reset k=raw,raw", append(append([]string{}, core[:7]...), "reflect", "cmd web_retire"), hx.EnvInt("VERIF_EXH_LEN3", 5))
+		enum("raw-nok-reflect-auto", "reset k=raw,nok refl=auto stop=inline1", full, hx.EnvInt("VERIF_EXH_LEN2", 4))
 		enum("raw-inline1-slowfirst", "reset k=raw stop=inline1 pd=300,200,100,0,0,0", full, hx.EnvInt("VERIF_EXH_LEN2", 4))
 		h.Close()
 		os.Stdout.Sync()
